@@ -178,7 +178,8 @@ theorem step_cases {locked slocked snap} {s s' : Sys} {l : Label}
      (l = .spawn ∧ s' = spawn s) ∨
      (∃ j, l = .adv j ∧ adv locked slocked snap s j = some s') ∨
      (∃ j, l = .fault j ∧ fault slocked s j = some s') ∨
-     (l = .crash ∧ s' = { s with crashed := true })) := by
+     (l = .crash ∧ s' = { s with crashed := true }) ∨
+     (∃ j, l = .cancel j ∧ s.jobs j = .start ∧ s' = setJob s j (.done .cancelled))) := by
   unfold step at hs
   split at hs
   · cases hs
@@ -220,14 +221,21 @@ theorem step_cases {locked slocked snap} {s s' : Sys} {l : Label}
     | adv j => right; right; right; right; left; exact ⟨j, rfl, hs⟩
     | fault j => right; right; right; right; right; left; exact ⟨j, rfl, hs⟩
     | crash =>
-      right; right; right; right; right; right
+      right; right; right; right; right; right; left
       injection hs with hs; subst hs; exact ⟨rfl, rfl⟩
+    | cancel j =>
+      right; right; right; right; right; right; right
+      simp only at hs
+      split at hs
+      · next hpc => injection hs with hs; subst hs; exact ⟨j, rfl, hpc, rfl⟩
+      · cases hs
 
 theorem atomInv_step {locked slocked snap init} {s s' : Sys} {l : Label}
     (h : AtomInv snap init s) (hs : step locked slocked snap s l = some s') :
     AtomInv snap init s' := by
   obtain ⟨_, hc⟩ := step_cases hs
-  rcases hc with ⟨_, _, _, e⟩ | ⟨c, _, _, e⟩ | ⟨b, _, _, e⟩ | ⟨_, e⟩ | ⟨j, _, e⟩ | ⟨j, _, e⟩ | ⟨_, e⟩
+  rcases hc with ⟨_, _, _, e⟩ | ⟨c, _, _, e⟩ | ⟨b, _, _, e⟩ | ⟨_, e⟩ | ⟨j, _, e⟩ | ⟨j, _, e⟩ | ⟨_, e⟩ |
+    ⟨j, _, hpc, e⟩
   · subst e; exact atomInv_frame h rfl rfl rfl rfl
   · subst e; exact atomInv_frame h rfl rfl rfl rfl
   · subst e
@@ -238,6 +246,25 @@ theorem atomInv_step {locked slocked snap init} {s s' : Sys} {l : Label}
   · exact atomInv_adv h e
   · exact atomInv_fault h e
   · subst e; exact atomInv_frame h rfl rfl rfl rfl
+  · -- cancel: a queued job has no temp file
+    subst e
+    have hj := h.jobs j
+    unfold JobOk at hj
+    rw [hpc] at hj
+    refine ⟨h.target, ?_, ?_⟩
+    · intro i
+      have hi := h.jobs i
+      unfold JobOk at hi ⊢
+      by_cases e : i = j
+      · subst e; simp [setJob, hj]
+      · simp only [setJob, e, if_false]; exact hi
+    · intro i hi
+      have hne : i ≠ j := by
+        intro e; subst e
+        have := h.fresh i hi
+        rw [hpc] at this; cases this
+      simp only [setJob, hne, if_false]
+      exact h.fresh i hi
 
 theorem atomInv_exec {locked slocked snap init} (ls : List Label) {s s' : Sys}
     (h : AtomInv snap init s) (hs : exec locked slocked snap ls s = some s') :
@@ -554,7 +581,7 @@ theorem snapInv_step {locked snap init} {s s' : Sys} {l : Label}
     (hs : step locked true snap s l = some s') : SnapInv snap init s' := by
   obtain ⟨_, hc⟩ := step_cases hs
   rcases hc with ⟨_, hm, hsl, e⟩ | ⟨c, _, hm, e⟩ | ⟨b, _, hm, e⟩ | ⟨_, e⟩ | ⟨j, _, e⟩ |
-    ⟨j, _, e⟩ | ⟨_, e⟩
+    ⟨j, _, e⟩ | ⟨_, e⟩ | ⟨j, _, hpc, e⟩
   · -- mbegin: the changer takes state.lock; nobody is reading
     subst e
     have hsl := hsl rfl
@@ -599,6 +626,9 @@ theorem snapInv_step {locked snap init} {s s' : Sys} {l : Label}
   · exact snapInv_fault h e
   · subst e
     exact ⟨h.jobs, h.holder, h.chgHeld, h.heldChg, h.memHist, h.target⟩
+  · subst e
+    exact snapInv_move (j := j) (pc' := .done .cancelled) h rfl rfl rfl rfl rfl rfl
+      (by simp [hpc, Pc.inRead]) trivial
 
 theorem snapInv_exec {locked snap init} (ls : List Label) {s s' : Sys}
     (ha : AtomInv snap init s) (h : SnapInv snap init s)
@@ -708,7 +738,8 @@ theorem mutex_fault {slocked} {s s' : Sys} {j : Nat}
 theorem mutex_step {slocked snap} {s s' : Sys} {l : Label}
     (h : Mutex s) (hs : step true slocked snap s l = some s') : Mutex s' := by
   obtain ⟨_, hc⟩ := step_cases hs
-  rcases hc with ⟨_, _, _, e⟩ | ⟨c, _, _, e⟩ | ⟨b, _, _, e⟩ | ⟨_, e⟩ | ⟨j, _, e⟩ | ⟨j, _, e⟩ | ⟨_, e⟩
+  rcases hc with ⟨_, _, _, e⟩ | ⟨c, _, _, e⟩ | ⟨b, _, _, e⟩ | ⟨_, e⟩ | ⟨j, _, e⟩ | ⟨j, _, e⟩ | ⟨_, e⟩ |
+    ⟨j, _, hpc, e⟩
   · subst e; exact mutex_frame h rfl rfl
   · subst e; exact mutex_frame h rfl rfl
   · subst e
@@ -719,6 +750,11 @@ theorem mutex_step {slocked snap} {s s' : Sys} {l : Label}
   · exact mutex_adv h e
   · exact mutex_fault h e
   · subst e; exact mutex_frame h rfl rfl
+  · subst e
+    intro i hi
+    by_cases e : i = j
+    · subst e; simp [setJob, Pc.inCS] at hi
+    · simp only [setJob, e, if_false] at hi ⊢; exact h i hi
 
 theorem mutex_exec {slocked snap} (ls : List Label) {s s' : Sys}
     (h : Mutex s) (hs : exec true slocked snap ls s = some s') : Mutex s' := by
@@ -791,7 +827,8 @@ theorem held_step {slocked snap init} {s s' : Sys} {l : Label}
     (ha : AtomInv snap init s) (hm : Mutex s) (h : Held s)
     (hs : step true slocked snap s l = some s') : Held s' := by
   obtain ⟨_, hc⟩ := step_cases hs
-  rcases hc with ⟨_, _, _, e⟩ | ⟨c, _, _, e⟩ | ⟨b, _, _, e⟩ | ⟨_, e⟩ | ⟨j, _, e⟩ | ⟨j, _, e⟩ | ⟨_, e⟩
+  rcases hc with ⟨_, _, _, e⟩ | ⟨c, _, _, e⟩ | ⟨b, _, _, e⟩ | ⟨_, e⟩ | ⟨j, _, e⟩ | ⟨j, _, e⟩ | ⟨_, e⟩ |
+    ⟨j, _, hpc, e⟩
   · subst e; exact held_frame h rfl rfl
   · subst e; exact held_frame h rfl rfl
   · subst e
@@ -802,6 +839,12 @@ theorem held_step {slocked snap init} {s s' : Sys} {l : Label}
   · exact held_adv hm h e
   · exact held_fault h e
   · subst e; exact held_frame h rfl rfl
+  · subst e
+    intro i hi
+    have := h i hi
+    by_cases e : i = j
+    · subst e; rw [hpc] at this; simp [Pc.inCS] at this
+    · simp only [setJob, e, if_false]; exact this
 
 theorem held_exec {slocked snap init} (ls : List Label) {s s' : Sys}
     (ha : AtomInv snap init s) (hm : Mutex s) (h : Held s)
@@ -998,7 +1041,7 @@ theorem conv_step {snap init} {s s' : Sys} {l : Label}
     (hq : l.quiet = true) (hs : step true true snap s l = some s') : Conv snap s' := by
   obtain ⟨_, hc⟩ := step_cases hs
   rcases hc with ⟨_, _, _, e⟩ | ⟨c, _, _, e⟩ | ⟨b, hl, _, e⟩ | ⟨_, e⟩ | ⟨j, _, e⟩ | ⟨j, hl, e⟩ |
-    ⟨hl, e⟩
+    ⟨hl, e⟩ | ⟨j, hl, _, e⟩
   · subst e; exact conv_frame h rfl rfl rfl
   · subst e; exact conv_frame h rfl rfl rfl
   · subst e
@@ -1007,6 +1050,7 @@ theorem conv_step {snap init} {s s' : Sys} {l : Label}
     · exact conv_spawn
   · subst e; exact conv_spawn
   · exact conv_adv ha hsn hm h e
+  · subst hl; simp [Label.quiet] at hq
   · subst hl; simp [Label.quiet] at hq
   · subst hl; simp [Label.quiet] at hq
 
@@ -1211,7 +1255,7 @@ theorem convU_step {snap init} {s s' : Sys} {l : Label}
     (hq : l.quiet = true) (hs : step true false snap s l = some s') : ConvU snap s' := by
   obtain ⟨_, hc⟩ := step_cases hs
   rcases hc with ⟨_, _, _, e⟩ | ⟨c, _, hch, e⟩ | ⟨b, hl, _, e⟩ | ⟨_, e⟩ | ⟨j, _, e⟩ | ⟨j, hl, e⟩ |
-    ⟨hl, e⟩
+    ⟨hl, e⟩ | ⟨j, hl, _, e⟩
   · subst e; exact Or.inr (Or.inl rfl)
   · subst e; exact Or.inr (Or.inl hch)
   · subst e
@@ -1220,6 +1264,7 @@ theorem convU_step {snap init} {s s' : Sys} {l : Label}
     · exact convU_spawn
   · subst e; exact convU_spawn
   · exact convU_adv ha hm h e
+  · subst hl; simp [Label.quiet] at hq
   · subst hl; simp [Label.quiet] at hq
   · subst hl; simp [Label.quiet] at hq
 
